@@ -102,10 +102,13 @@ def write_graph(molecule, smiles_format=False, default_element='*'):
 
     while to_visit:
         current = to_visit.pop()
-        if current in branches:
+        open_branch = current in branches
+        if open_branch:
             branch_depth += 1
-            smiles += '('
             branches.remove(current)
+            # SMILES puts the bond symbol inside the parenthesis, CGsmiles in front of it
+            if smiles_format:
+                smiles += '('
 
         if current in predecessors:
             # It's not the first atom we're visiting, so we want to see if the
@@ -116,6 +119,9 @@ def write_graph(molecule, smiles_format=False, default_element='*'):
             if _write_edge_symbol(molecule, previous, current):
                 order = molecule.edges[previous, current].get('order', 1)
                 smiles += order_to_symbol[order]
+
+        if open_branch and not smiles_format:
+            smiles += '('
 
         if smiles_format:
             smiles += format_atom(molecule, current, default_element)
